@@ -1762,8 +1762,10 @@ def dims_harness(c, mr, dims, mr_valgrind=None):
                         # how many particles the callback added is reported by the harness itself (7th column); bodies that disappear
                         # need not have merged: in tree mode the tree update also drops bodies that have left the root box
                         added = int(res["out"][-1].split()[6]) if len(res["out"][-1].split()) > 6 else None
-                        if added is not None and nfrag != added:
-                            bad = "the collision callback added %d particles during the steps, %d of them are found afterwards" % (added, nfrag)
+                        hit = int(res["out"][-1].split()[7]) if len(res["out"][-1].split()) > 7 else 0
+                        # (a fragment that itself took part in a later resolved collision may have been merged away: C13 decides who collides)
+                        if added is not None and not (added - hit <= nfrag <= added):
+                            bad = "the collision callback added %d particles during the steps (%d of them collided again), %d of them are found afterwards" % (added, hit, nfrag)
                     if any(rc_ >= nfin for _, rc_, _ in gets):
                         bad = "a lookup returned an index beyond N=%d" % nfin
                     elif len(found) != nfin:
